@@ -359,6 +359,17 @@ class MTVRPEnv(RL4COEnvBase):
         _check_c1("demand_linehaul")
         _check_c1("demand_backhaul")
 
+        # Backhauls: within a route, no linehaul customer may be served after a backhaul customer
+        is_linehaul = td["demand_linehaul"].gather(dim=1, index=actions) > 0
+        is_backhaul = td["demand_backhaul"].gather(dim=1, index=actions) > 0
+        carrying_backhaul = torch.zeros_like(is_backhaul[:, 0])
+        for ii in range(actions.size(1)):
+            carrying_backhaul = carrying_backhaul & (actions[:, ii] != 0)  # reset at depot
+            assert not (
+                carrying_backhaul & is_linehaul[:, ii]
+            ).any(), "Linehaul customer served after a backhaul customer in the same route"
+            carrying_backhaul = carrying_backhaul | is_backhaul[:, ii]
+
     def load_data(self, fpath, batch_size=[], scale=False):
         """Dataset loading from file
         Normalize demand by capacity to be in [0, 1]
